@@ -55,6 +55,37 @@ def analyse(prop, tier, repo_root, seed=0, quiet=False):
     return rep
 
 
+class budget(object):
+    """with budget(seconds): ...  raises AnalysisError inside the block when it runs longer (nested inside the
+    global watchdog, which is re-armed with its remaining time afterwards)."""
+
+    def __init__(self, seconds, what=''):
+        self.seconds, self.what = seconds, what
+
+    def __enter__(self):
+        import signal
+        import time
+        self.t0 = time.time()
+        self.old_handler = signal.getsignal(signal.SIGALRM)
+        self.remaining = signal.alarm(0)
+
+        def on_alarm(signum, frame):
+            raise AnalysisError('time budget of %d s exceeded in %s (symbolic expression growth?)' % (self.seconds, self.what))
+        signal.signal(signal.SIGALRM, on_alarm)
+        signal.alarm(self.seconds)
+        return self
+
+    def __exit__(self, *exc):
+        import signal
+        import time
+        signal.alarm(0)
+        signal.signal(signal.SIGALRM, self.old_handler)
+        if self.remaining:
+            left = max(1, int(self.remaining - (time.time() - self.t0)))
+            signal.alarm(left)
+        return False
+
+
 def _watchdog(seconds):
     import signal
 
